@@ -195,6 +195,25 @@ def run_path(prog, lib, h, prefix, timeout_ms, dump_smt=None):
                     dumped = [h.name, label, s2.to_smt2(), None]
                     dump_smt.append(dumped)
                 rr = ex.check(neg)
+                if rr == z3.unknown:
+                    # second opinion before calling it undecided: a fresh (non-incremental) solver over the same path
+                    # condition with six times the budget - timeouts are wall-clock and a loaded machine must not turn
+                    # a 10 ms query into a verdict
+                    s3 = z3.Solver()
+                    s3.set('timeout', int(timeout_ms * 6))
+                    for c in ex.pc:
+                        s3.add(c)
+                    s3.add(neg)
+                    t1 = time.time()
+                    rr2 = s3.check()
+                    ex.stats['queries'] += 1
+                    ex.stats['solver_ms'] += (time.time() - t1) * 1000
+                    if rr2 != z3.unknown:
+                        rr = rr2
+                        ex.stats['unknown'] -= 1
+                        if rr == z3.sat:
+                            # make the model available through the executor's solver interface below
+                            ex.solver = s3_as_solver(s3, ex)
                 verdict = 'sat' if rr == z3.sat else ('unsat' if rr == z3.unsat else 'unknown')
                 if dumped is not None:
                     dumped[3] = verdict
@@ -247,18 +266,34 @@ def run_path(prog, lib, h, prefix, timeout_ms, dump_smt=None):
     return ex, pr
 
 
-def explore(prog, h, timeout_ms=10000, verbose=False, dump_smt=None, deadline=None):
+def s3_as_solver(s3, ex):
+    """after a retry succeeded with `sat`: continue on a solver that holds exactly the path condition (the obligation is
+    pushed again by the caller when it extracts the model)"""
+    s4 = z3.Solver()
+    s4.set('timeout', ex.query_timeout_ms * 6)
+    for c in ex.pc:
+        s4.add(c)
+    return s4
+
+
+def explore(prog, h, timeout_ms=10000, verbose=False, dump_smt=None, deadline=None, initial_work=None, slice_s=None, seen_before=0):
+    """depth-first enumeration of decision prefixes.  With `slice_s` the call returns after about that many seconds and
+    leaves the unexplored prefixes in `res.remaining` (the checker hands them to other worker processes)."""
     lib = Lib()
     res = HarnessResult(h)
+    res.remaining = []
     t0 = time.time()
-    work = [[]]
+    work = [list(p) for p in initial_work] if initial_work is not None else [[]]
     seen = 0
     while work:
-        if seen >= h.max_paths:
+        if seen + seen_before >= h.max_paths:
             res.errors.append('path budget %d exhausted' % h.max_paths)
             break
         if deadline and time.time() > deadline:
-            res.errors.append('time budget exhausted after %d paths' % seen)
+            res.errors.append('time budget exhausted after %d paths' % (seen + seen_before))
+            break
+        if slice_s is not None and seen >= 1 and time.time() - t0 > slice_s and len(work) >= 1:
+            res.remaining = work
             break
         prefix = work.pop()
         seen += 1
